@@ -267,6 +267,67 @@ def t_literals():
     return stats
 
 
+DIGIT_SPELLINGS = ["0", "1", "2", "-1", "10", "\uff11", "\u0661", "\uff10", "-\uff11", "\uff11\uff10", "1\uff10", "\u0967", "\U0001d7cf"]
+DIGIT_SHAPES = ["$[%s]", "$..[%s]", "$[%s, 1]", "$.x[%s]", "$[%s:]", "$[:%s]", "$[::%s]", "$[*][%s]", "$[?@[%s] == 'A']", "$.x[?@ > %s]", "$[?@[%s]]"]
+
+
+def digit_doc():
+    d = {}
+    for i, sp in enumerate(DIGIT_SPELLINGS):
+        d[sp] = "m%d" % i
+    d["x"] = list(range(10, 22))
+    d["o"] = dict((sp, "A" if i % 2 else "B") for i, sp in enumerate(DIGIT_SPELLINGS))
+    d["l"] = [["A", "B", "C"], {"1": "A", "\uff11": "B"}]
+    return d
+
+
+def t_digits():
+    """indices, slice bounds and number literals spelled with non-ASCII decimal digits (the lexer's \\d admits them)"""
+    stats = Stats()
+    n = 0
+    doc = digit_doc()
+    for sp in DIGIT_SPELLINGS:
+        for shp in DIGIT_SHAPES:
+            r = judge(stats, shp % sp, [doc, doc["l"], doc["x"]], "digits")
+            n += 1
+            stats.cls("digits:" + r[0])
+        stats.nt("digits", sp)
+    stats.subspaces.append({"name": "13 digit spellings (ASCII, full-width, Arabic-Indic, Devanagari, mathematical; mixed) x 11 positions", "size": n, "exhaustive": True})
+    return stats
+
+
+def t_floats(seed, n):
+    """a float literal must survive printing exactly: compared with itself and its two neighbouring doubles"""
+    import math
+
+    from hypothesis import strategies as st2
+    stats = Stats()
+    special = [0.30000000000000004, 1.0000000000000002, 0.1, 1 / 3, 2 / 3, 1.7976931348623157e308, 2.2250738585072014e-308, 5e-324, 1e16, 1e15 + 0.3,
+               9007199254740993.0, 1e22, 1e23, 123456.7890123456, 4.35, 0.7000000000000001, 1.1 * 1.1, 2.675, 1e-5, 1.5e-7, 100.0, 1e21]
+
+    def body(f):
+        if f != f or f in (float("inf"), float("-inf")):
+            return
+        stats.case()
+        up, down = math.nextafter(f, math.inf), math.nextafter(f, -math.inf)
+        doc = [v for v in (down, f, up) if v == v and abs(v) != float("inf")]
+        for lit in {repr(f), "%.17g" % f, ("%.17e" % f)}:
+            if "." not in lit and "e" not in lit:
+                lit += ".0"
+            for tmpl in ("$[?@ == %s]", "$[?@ < %s]", "$[?@ >= %s]"):
+                r = judge(stats, tmpl % lit, [doc], "float")
+                stats.cls("float:" + r[0])
+        if len(repr(f).replace("-", "").replace(".", "").split("e")[0].lstrip("0")) >= 16:
+            stats.nt(repr(f))
+            if len(stats.samples) < 4:
+                stats.sample({"literal": repr(f), "document": doc})
+
+    for f in special + [-x for x in special]:
+        body(f)
+    hyp_run(st2.floats(allow_nan=False, allow_infinity=False), body, n, seed, stats)
+    return stats
+
+
 def render_string(s, q):
     out = []
     for ch in s:
@@ -283,7 +344,8 @@ def render_string(s, q):
 
 
 def tasks(tier, seed):
-    ts = [{"name": "literals", "fn": "t_literals"}]
+    ts = [{"name": "literals", "fn": "t_literals"}, {"name": "digits", "fn": "t_digits"},
+          {"name": "floats", "fn": "t_floats", "kw": {"seed": mix(seed, ID, "floats"), "n": 2500 if tier == "quick" else 40000}}]
     ts += [{"name": "skeletons-%d" % k, "fn": "t_skeletons", "kw": {"shard": k, "nshards": 5}} for k in range(5)]
     n = 3000 if tier == "quick" else 50000
     for k in range(10):
